@@ -57,6 +57,10 @@ impl CacheCfg {
         if let Some(t) = self.ttl {
             b = b.ttl(Duration::from_millis(t));
         }
+        // (max_size 2: a no-op listener is registered for every event type)
+        if self.max_size == 2 {
+            b = b.on_hit(|| {}).on_miss(|| {}).on_eviction(|| {});
+        }
         let layer = b.build();
         if self.shared {
             let sl = layer.shared::<Resp>();
